@@ -26,6 +26,10 @@ type Job struct {
 	Only     int      `json:"only"`     // run only this case index (>=0)
 	DumpLog  bool     `json:"dump_log"`
 	MaxViol  int      `json:"max_viol"`
+	// Spread: the indices From..To are spread evenly over the whole index range of
+	// the tier (case number = index * stride), so that a small sample touches every
+	// family of the check (used by the determinism self-test)
+	Spread bool `json:"spread,omitempty"`
 }
 
 // Msg is one line of the worker->coordinator protocol.
@@ -119,6 +123,12 @@ func workerRun(p *Program, job *Job) {
 	if job.To <= 0 {
 		job.To = chk.NumCases(job.Tier)
 	}
+	stride := 1
+	if job.Spread && job.To > 0 {
+		if stride = chk.NumCases(job.Tier) / job.To; stride < 1 {
+			stride = 1
+		}
+	}
 	for i := job.From; i < job.To; i++ {
 		if job.Only >= 0 {
 			if i != job.Only {
@@ -131,7 +141,7 @@ func workerRun(p *Program, job *Job) {
 			timedOut = true
 			break
 		}
-		c := chk.Gen(env, job.Seed, job.Tier, i)
+		c := chk.Gen(env, job.Seed, job.Tier, i*stride)
 		if c == nil {
 			continue
 		}
